@@ -119,6 +119,7 @@ PROBES = [
     ("default_role_set", "```{default-role} math\n```\n\n```{eval-rst}\n`a+b`\n```\n", {}),
     ("default_role_use", "```{eval-rst}\n`a+b` :emphasis:`e`\n```\n\n```{note}\n```{eval-rst}\n`c`\n```\n```\n", {}),
     ("role_define", "```{role} shoutx(emphasis)\n:class: loud\n```\n\n{shoutx}`x`\n", {}),
+    ("classes_repeated", "[a]{.red .bold .red .wide} [b]{.note .wide}{.tip .note}\n\n{.c1 .c2 .c1 .c3 .c4 .c5}\npara\n\n![i](x.png){.r .s .r .t .u}\n", {"enable_extensions": ["attrs_inline", "attrs_block"]}),
     ("role_use_undefined", "{shoutx}`x` and\n\n```{eval-rst}\n:shoutx:`y` :rrx:`z`\n```\n", {}),
     ("evalrst_role_define", "```{eval-rst}\n.. role:: rrx(strong)\n\n:rrx:`x`\n```\n\n{rrx}`y`\n", {}),
     ("class_pending", "```{class} special\n```\n\npara\n\n```{eval-rst}\n.. class:: other\n\npara2\n```\n", {}),
@@ -188,6 +189,8 @@ def fresh_baseline(item):
     outp = os.path.join(TMP, "b_out.json")
     json.dump({"item": item, "workdir": TMP}, open(inp, "w"))
     env = dict(os.environ)
+    # the reference interpreter runs with ANOTHER string-hash seed than this process: nothing in a document may depend on it
+    env["PYTHONHASHSEED"] = str(1 + (int(env.get("PYTHONHASHSEED", "0") or 0) + 12345) % 4000000000)
     r = subprocess.run([sys.executable, "-c", "import sys; from mv.checks import c15; c15.baseline_main(sys.argv[1:])", inp, outp], env=env, cwd=core.VERIF, capture_output=True, text=True, timeout=120)
     if r.returncode != 0:
         return None, r.stderr[-400:]
